@@ -22,7 +22,7 @@ OPS = ["sigmoid", "tanh", "selu", "softmax", "log_softmax", "cross_entropy", "bc
 def gen_cases(tier, seed):
     rng = gen.rng_for(seed, "c09", tier)
     cases = []
-    reps = 6 if tier == "quick" else 200
+    reps = 12 if tier == "quick" else 200
     for op in OPS:
         for dt in ("float32", "float64"):
             forms = ["functional", "module"]
